@@ -973,7 +973,9 @@ static void build_expr(WorkList *list, ASTNode *expr, Environment *env) {
                     /* Regular binary operator */
                     bool needs_parens = (op == TOKEN_PLUS || op == TOKEN_MINUS || 
                                        op == TOKEN_STAR || op == TOKEN_SLASH || op == TOKEN_PERCENT ||
-                                       op == TOKEN_AND || op == TOKEN_OR);
+                                       op == TOKEN_AND || op == TOKEN_OR ||
+                                       op == TOKEN_EQ || op == TOKEN_NE || op == TOKEN_LT ||
+                                       op == TOKEN_LE || op == TOKEN_GT || op == TOKEN_GE);
                     
                     if (needs_parens) emit_literal(list, "(");
                     build_expr(list, expr->as.prefix_op.args[0], env);
